@@ -181,6 +181,8 @@ def run_case(case, built=None, keep_obs=False):
         dyn |= gen.pessimistic_tags(prog)
     if case.get('store') and case.get('gate_saves'):
         dyn.add('suspending_store')     # an artifact store whose save() really awaits
+    if case.get('pool_cap'):
+        dyn.add('bounded_pool')         # thread / process pools with fewer workers than ready jobs
     prog = prog0
     stats['invocations'] = sum(1 for r in obs.trace if r['k'] == 'body_start')
     if obs.pending_tasks_after_drain and not obs.verdict:
